@@ -341,7 +341,7 @@ impl<'a, 'ast> Visit<'ast> for Auto<'a> {
         for (name, f, is_mut) in self.method_rewrites.clone() {
             if m.method == name.as_str() {
                 let rr = self.src.range(&*m.receiver);
-                let pre = if is_mut { format!("{}(&mut ", f) } else { format!("{}(", f) };
+                let pre = if is_mut { format!("{}(&mut ", f) } else if let Some(fr) = f.strip_prefix('&') { format!("{}(&", fr) } else { format!("{}(", f) };
                 self.edits.push(Edit { start: rr.0, end: rr.0, text: pre, rule: "R5-method", label: None, prio: 0 });
                 let dot_to_paren = (rr.1, self.src.span_range(m.paren_token.span.open()).1);
                 let sep = if m.args.is_empty() { "" } else { ", " };
@@ -555,8 +555,10 @@ fn find_anchor(idx: &BodyIndex, anchor: &str) -> Result<(usize, usize), String> 
         Some((t, n)) if n.trim().parse::<usize>().is_ok() => (t.trim(), n.trim().parse::<usize>().unwrap()),
         _ => (anchor.trim(), 0),
     };
+    // `== text`: the statement's normalised text must equal `text` exactly (e.g. a tail expression that is a bare variable)
+    let (text, exact) = match text.strip_prefix("== ") { Some(t) => (t.trim(), true), None => (text, false) };
     let t = norm(text);
-    let ms: Vec<_> = idx.stmts.iter().filter(|(_, s)| s.starts_with(&t)).collect();
+    let ms: Vec<_> = idx.stmts.iter().filter(|(_, s)| if exact { *s == t } else { s.starts_with(&t) }).collect();
     if ms.is_empty() {
         return Err(format!("anchor not found: `{}`", text));
     }
